@@ -428,6 +428,59 @@ fn floats<T: Tier + Dom<M = Sh>>(rep: &mut Report) {
     );
 }
 
+/// long chains (f32): r = r * step repeated 2^18 times, as an animation loop does. The product of rotations about a
+/// common axis is the rotation by the sum of the angles: orthonormal, determinant +1 - to the drift n roundings allow
+fn long_chain(rep: &mut Report) {
+    type T = f32;
+    let steps: [f64; 3] = [0.000_873, 0.011, 0.37];
+    let axes: [[f64; 3]; 2] = [[0.0, 0.0, 1.0], [2.0 / 7.0, 3.0 / 7.0, 6.0 / 7.0]];
+    rep.cases(
+        "long-chain/Basis3+Matrix3+Basis2",
+        "F",
+        "r = r * step, 2^18 times, for 3 step angles x 2 axes; orthonormality, determinant and accumulated angle at every power of two",
+        steps.len() * axes.len(),
+        Guard::states(6).distinct(6),
+        |i, ctx| {
+            let (th, ax) = (steps[i / axes.len()], axes[i % axes.len()]);
+            ctx.describe(|| format!("step {th} rad about {:?}", ax));
+            ctx.out(&i);
+            let axis = mk_v3::<T>(ax.map(|x| x as f32));
+            let step3: Basis3<T> = Rotation3::from_axis_angle(axis, Rad(th as f32));
+            let stepm: Matrix3<T> = Matrix3::from_axis_angle(axis, Rad(th as f32));
+            let step2: Basis2<T> = Rotation2::from_angle(Rad(th as f32));
+            let (mut r3, mut rm, mut r2) = (step3, stepm, step2);
+            let thf = (th as f32) as f64;
+            for n in 2..=(1u32 << 18) {
+                r3 = r3 * step3;
+                rm = rm * stepm;
+                r2 = r2 * step2;
+                if n.is_power_of_two() {
+                    let tol = 16.0 * n as f64 * <T as Tier>::U + 1e-5;
+                    for (name, m) in [("Basis3", mk_m3(basis3_arr(r3))), ("Matrix3", rm)] {
+                        ctx.t();
+                        let g = m3(m.transpose() * m);
+                        let dev = (0..3).flat_map(|c| (0..3).map(move |r| (c, r))).map(|(c, r)| (g[c][r] as f64 - if c == r { 1.0 } else { 0.0 }).abs()).fold(0.0, f64::max);
+                        let det = m.determinant() as f64;
+                        // the accumulated angle, from the trace: 1 + 2 cos(n theta)
+                        let tr = (m.x.x + m.y.y + m.z.z) as f64;
+                        let want_tr = 1.0 + 2.0 * (n as f64 * thf).cos();
+                        if !(dev <= tol && (det - 1.0).abs() <= tol && (tr - want_tr).abs() <= 4.0 * tol) {
+                            ctx.fail(&key(&format!("compose/{name}/long-chain")), || format!("after {n} products: orthonormality defect {dev:e}, determinant {det}, trace {tr} (rotation by n theta: {want_tr}); allowed {tol:e}"));
+                        }
+                    }
+                    ctx.t();
+                    let b = basis2_arr(r2);
+                    let (c, sn) = ((n as f64 * thf).cos(), (n as f64 * thf).sin());
+                    let dev2 = [(b[0][0] as f64 - c).abs(), (b[0][1] as f64 - sn).abs(), (b[1][0] as f64 + sn).abs(), (b[1][1] as f64 - c).abs()].iter().cloned().fold(0.0, f64::max);
+                    if !(dev2 <= 4.0 * tol) {
+                        ctx.fail(&key("compose/Basis2/long-chain"), || format!("after {n} products: {:?}, rotation by n theta has (cos, sin) = ({c}, {sn}); allowed {:e}", b, 4.0 * tol));
+                    }
+                }
+            }
+        },
+    );
+}
+
 fn main() {
     let mut rep = Report::from_args(P);
     rep.assume("exact tier: angles are lattice codes k (angle k*delta with rational sine and cosine), axes rational points of the sphere; the quaternion constructor halves the angle, so it is explored on even codes; Deg is explored in the float tiers (its conversion factor is a radian constant)");
@@ -435,5 +488,6 @@ fn main() {
     exact(&mut rep);
     floats::<f64>(&mut rep);
     floats::<f32>(&mut rep);
+    long_chain(&mut rep);
     std::process::exit(rep.finish());
 }
